@@ -9,6 +9,26 @@ type PropSpec struct {
 }
 
 var properties = map[string]PropSpec{
+	"C06": {
+		Level: "other",
+		Explanation: "wip",
+		Run: func(c *Ctx) {
+			c.ruleInv()
+			c.ttCondValid()
+			c.ttCondExprHandler()
+			c.ruleCondStores()
+			c.ttCondString()
+		},
+	},
+	"C14": {
+		Level: "other",
+		Explanation: "wip",
+		Run: func(c *Ctx) {
+			c.ruleDispatch()
+			c.rulePushLoops()
+			c.ruleBasicRefusal()
+		},
+	},
 	"C13": {
 		Level: "other",
 		Explanation: "wip",
@@ -47,6 +67,10 @@ var properties = map[string]PropSpec{
 		Run: func(c *Ctx) {
 			c.ruleInv()
 			c.ruleNil("R-NIL", nil)
+			c.ruleRefl("R-REFL", nil)
+			c.ruleHandle()
+			c.ruleZeroResults()
+			c.ruleResetElemIndependent()
 		},
 	},
 	"C11": {
